@@ -19,6 +19,7 @@ import TTModel.NormQR
 import TTModel.DecompR
 import TTModel.PermuteM
 import TTModel.ReshapeM
+import TTModel.QTT
 import TTModel.Permute
 import TTModel.Reshape
 import TTModel.Scalar
@@ -466,6 +467,14 @@ def run : PM String := do
       let cap ← nat; let k ← nat; let dst ← many k (do let m ← nat; let n ← nat; pure (m, n)); let (_, x) ← tt
       match Reshape.reshapeTTMWith freeze (Decomp.idOracle 1000000) (Decomp.idOracle cap) dst.toList x with
       | some r => pure (showTT true (r.map freeze))
+      | none => pure "none"
+  | "toqtt" => do
+      let cap ← nat; let ms ← nat; let (_, x) ← tt
+      pure (showTT false ((QTT.toQTT (Decomp.idOracle cap) ms x).map freeze))
+  | "qtttotens" => do
+      let shape ← natList; let (_, x) ← tt
+      match QTT.qttToTens shape x with
+      | some r => pure (showTT false (r.map freeze))
       | none => pure "none"
   | "lrorth" => do
       let (_, x) ← tt
